@@ -236,9 +236,9 @@ impl Deserializable for StackOutputs {
         let count = source.read_u32()?.try_into().expect("u32 must fit in a usize");
         let overflow_addrs = source.read_many::<u64>(count)?;
 
-        Ok(Self {
-            stack,
-            overflow_addrs,
-        })
+        // apply the same validation as the constructor: canonical elements, at least 16 stack elements
+        // (padded with zeros), overflow addresses consistent with the stack depth
+        Self::new(stack, overflow_addrs)
+            .map_err(|err| DeserializationError::InvalidValue(format!("{err:?}")))
     }
 }
